@@ -29,6 +29,13 @@ var c03Kinds = []ruleKind{
 	{`F.M["a"] < 1 && F.Arr[0] > 0`, []string{`F.M["a"] = F.M["a"] + 1`}},
 	// Complete() in the MIDDLE of the action list: "applied completely" also holds for the last rule of a run
 	{"F.I < 3", []string{"F.I = F.I + 1", "Complete()", "F.B = !F.B", "F.Act(%d)"}},
+	// a condition that FAILS to evaluate (missing map key) until another rule's action repairs it: from then
+	// on the rule is a satisfied active rule like any other
+	{`F.M["z"] >= 1 && F.I < 3`, []string{"F.I = F.I + 1", "F.Act(%d)"}},
+	{"F.I2 == 0", []string{`F.M["z"] = 1`, "F.I2 = 1"}},
+	// the same with a condition that PANICS (integer modulo by zero) until repaired
+	{"7 % F.In == 1 && F.I < 3", []string{"F.I = F.I + 1", "F.Act(%d)"}},
+	{"F.I2 == 0 || F.I2 == 1", []string{"F.In = 2", "F.I2 = F.I2 + 2"}},
 }
 
 func mkRule(name string, k ruleKind, id int) *grl.Rule {
@@ -194,9 +201,9 @@ func C03(rep *ev.Reporter, tier string) {
 		if tier == "thorough" {
 			s3 = []salSpec{sals[0], sals[2], sals[4], sals[5]}
 		}
-		k3 := []int{0, 2, 4, 5, 6}
+		k3 := []int{0, 8, 9, 10, 11}
 		if tier == "thorough" {
-			k3 = []int{0, 1, 2, 3, 4, 5, 6}
+			k3 = []int{0, 1, 2, 3, 4, 5, 6, 8, 9, 10, 11}
 		}
 		for _, a := range k3 {
 			for _, b := range k3 {
@@ -238,6 +245,6 @@ func C03(rep *ev.Reporter, tier string) {
 		}
 	}
 	RunFamily(rep, gen, 4000, bud, judgeC03)
-	rep.Coverage["rule"] = "every rule set of k=2 (all kind pairs x all salience pairs) and k=3 (all kind triples x salience triples) rules over 8 rule kinds (quick: 5 of them in triples) whose actions change which rules are satisfied next, two of them changing facts only through a slice element / map entry, one calling Complete() in the middle of its action list; the fired rule is compared with the maximum over the conflict set the reference evaluator recomputes on the current facts AND with the maximum over the candidates the engine reported; per program every initial world x every rule-iteration order at every cycle (state-pruned). Non-trivial: a firing chosen among >=2 candidates with >=2 distinct saliences."
+	rep.Coverage["rule"] = "every rule set of k=2 (all kind pairs x all salience pairs) and k=3 (all kind triples x salience triples) rules over 12 rule kinds (quick: 5 of them in triples) whose actions change which rules are satisfied next, two of them changing facts only through a slice element / map entry, one calling Complete() in the middle of its action list, one whose condition fails to evaluate (missing map key; integer modulo by zero, which panics inside the engine) until another kind's action repairs it; the fired rule is compared with the maximum over the conflict set the reference evaluator recomputes on the current facts AND with the maximum over the candidates the engine reported; per program every initial world x every rule-iteration order at every cycle (state-pruned). Non-trivial: a firing chosen among >=2 candidates with >=2 distinct saliences."
 	rep.Assumptions = append(rep.Assumptions, "saliences written in decimal/hex/octal/negative spellings; model salience comes from the generator, not from the engine's parse", "rule order controlled through the overlay hook verifhook.Order (all k! orders per cycle)")
 }
